@@ -94,6 +94,12 @@ func c07Kinds() []c07kind {
 		{name: "include-missing", src: func(n string) string { return "{% include \"no-such-file-" + n + "\" %}" }, render: true, cause: 1},
 		{name: "include-not-string", src: func(string) string { return "{% include 3 %}" }, render: true},
 		{name: "break-outside-loop", src: func(string) string { return "{% break %}" }, render: true, topOnly: true},
+		// an application filter with an expressions.Closure parameter: the expression argument is parsed when the filter is applied
+		{name: "closure-filter-syntax", src: func(string) string { return "{{ one | xwhere_exp: 'it', 'it >' }}" }, render: true, cause: 1},
+		{name: "closure-filter-syntax-in-if", src: func(string) string { return "{% if one | xwhere_exp: 'it', '((' %}{% endif %}" }, render: true, cause: 1},
+		{name: "closure-filter-not-a-string", src: func(string) string { return "{{ one\n | xwhere_exp: 'it', 3 }}" }, render: true, cause: 1},
+		{name: "closure-filter-inner-error", src: func(string) string { return "{% assign z = one | xwhere_exp: 'it', 'it | vfail' %}" }, render: true, cause: 2},
+		{name: "closure-filter-unknown-filter", src: func(n string) string { return "{{ one | xwhere_exp: 'it', 'it | nosuchfilter_" + n + "' }}" }, render: true, mustName: "nosuchfilter_%s"},
 		// application tags and blocks (render.Context): the failing construct is the tag, or the object inside its argument on the same line
 		{name: "custom-tag-arg-filter-error", src: func(string) string { return "{% xecho pre {{ 1 | vfail }} post\n more %}" }, render: true, cause: 1},
 		{name: "custom-tag-arg-syntax", src: func(string) string { return "{% xecho {{ a b }} %}" }, render: true},
